@@ -58,6 +58,21 @@ def scenarios(run):
                   S("unsub_async", c=victim), S("quiesce")]
             st += [S("recv", c=1)] * nvals(kind) + [S("quiesce"), S("wait_unsub"), S("waitret", id=1), S("end")]
             out.append(dict(timeout=False, steps=st, pat="P8"))
+    # P9 a WithOnly publisher that outlives its subscription: Unsub through the parent before, or during, a publish through the clone
+    for kind in KINDS:
+        for b1 in (0, 1):
+            st = [S("sub", c=1, buf=b1), S("sub", c=2, buf=2), S("withonly", w=1, c=1), S("unsub", c=1),
+                  S("pub", id=1, kind=kind, n=nvals(kind), only=1, via=1), S("quiesce"), S("recv", c=1), S("waitret", id=1), S("end")]
+            out.append(dict(timeout=False, steps=st, pat="P9"))
+            st = [S("sub", c=1, buf=0), S("sub", c=2, buf=2), S("withonly", w=1, c=1), S("pub", id=1, kind=kind, n=nvals(kind), only=1, via=1),
+                  S("quiesce"), S("unsub", c=1), S("quiesce"), S("recv", c=1), S("waitret", id=1), S("end")]
+            out.append(dict(timeout=False, steps=st, pat="P9"))
+    # P10 the asynchronous Slice variants with a slow subscriber: the caller reuses its slice as soon as the call has returned
+    for kind in ("PubSlice", "PubSliceWait"):
+        for b1 in (0, 1):
+            st = [S("sub", c=1, buf=b1), S("pub", id=1, kind=kind, n=2, only=0), S("quiesce"), S("sleep", ms=20), S("recv", c=1), S("recv", c=1),
+                  S("waitret", id=1), S("end")]
+            out.append(dict(timeout=False, steps=st, pat="P10"))
     # P3 error values: unknown, nil, twice
     out.append(dict(timeout=False, pat="P3", steps=[S("sub", c=1, buf=1), S("unsub", c=99), S("unsub", c=0), S("unsub", c=1), S("unsub", c=1),
                                                     S("recv", c=1), S("pub", id=1, kind="PubSync", n=1, only=0), S("waitret", id=1), S("end")]))
